@@ -308,6 +308,7 @@ func codecFuncFacts(fx *Facts, fd *ast.FuncDecl, fname string, globals map[strin
 	// if-condition or if-initialiser (a guard in a shape that is not recognised: "unknown", not "unguarded")
 	guarded := map[string]bool{}
 	mentioned := map[string]bool{}
+	bounded := map[string]bool{}
 	var walk func(stmts []ast.Stmt)
 	inspectExpr := func(n ast.Node) {
 		ast.Inspect(n, func(n ast.Node) bool {
@@ -381,11 +382,28 @@ func codecFuncFacts(fx *Facts, fd *ast.FuncDecl, fname string, globals map[strin
 					note(is.Init)
 				}
 			}
+			// locals that hold (at most) the number of unread bytes: `avail := buf.Len()`, `n := min(count, buf.Len())`
+			if as, ok := s.(*ast.AssignStmt); ok && len(as.Lhs) == 1 && len(as.Rhs) == 1 {
+				if id, ok := as.Lhs[0].(*ast.Ident); ok && boundedByInput(as.Rhs[0], bounded) {
+					bounded[id.Name] = true
+					guarded[id.Name] = true
+				}
+			}
+			// `if X > buf.Len() { return … }` in any of its spellings (X > L, L < X, X >= L, L <= X; L the unread count)
 			if is, ok := s.(*ast.IfStmt); ok && is.Init == nil {
-				if b, ok := is.Cond.(*ast.BinaryExpr); ok && b.Op == token.GTR && src(b.Y) == "buf.Len()" {
-					if id, ok := b.X.(*ast.Ident); ok && len(is.Body.List) == 1 {
-						if _, isRet := is.Body.List[0].(*ast.ReturnStmt); isRet {
-							guarded[id.Name] = true
+				if b, ok := is.Cond.(*ast.BinaryExpr); ok && len(is.Body.List) == 1 {
+					var big, lim ast.Expr
+					switch b.Op {
+					case token.GTR, token.GEQ:
+						big, lim = b.X, b.Y
+					case token.LSS, token.LEQ:
+						big, lim = b.Y, b.X
+					}
+					if big != nil && boundedByInput(lim, bounded) {
+						if id, ok := big.(*ast.Ident); ok {
+							if _, isRet := is.Body.List[0].(*ast.ReturnStmt); isRet {
+								guarded[id.Name] = true
+							}
 						}
 					}
 				}
@@ -448,6 +466,29 @@ func codecFuncFacts(fx *Facts, fd *ast.FuncDecl, fname string, globals map[strin
 			fx.InitRegs = append(fx.InitRegs, src(s))
 		}
 	}
+}
+
+// an expression that is at most the number of unread bytes of the buffer: buf.Len(), a local assigned from it,
+// min(…) with such an argument
+func boundedByInput(e ast.Expr, bounded map[string]bool) bool {
+	switch x := e.(type) {
+	case *ast.ParenExpr:
+		return boundedByInput(x.X, bounded)
+	case *ast.Ident:
+		return bounded[x.Name]
+	case *ast.CallExpr:
+		if src(x) == "buf.Len()" {
+			return true
+		}
+		if id, ok := x.Fun.(*ast.Ident); ok && id.Name == "min" {
+			for _, a := range x.Args {
+				if boundedByInput(a, bounded) {
+					return true
+				}
+			}
+		}
+	}
+	return false
 }
 
 func classifyMake(c *ast.CallExpr, params map[string]bool, guarded map[string]bool, mentioned map[string]bool) string {
